@@ -179,7 +179,9 @@ let handle (i : string list) (o : string list) =
     let show = (match model with Ok b -> "Ok_" ^ hex_of_bytes b | Panic -> "PANIC" | _ -> "ERR") in
     let inr = build_in_range oti cci tsi pkt now in
     if not (p_C06_build oti cci tsi pkt prof now impl) then
-      (if impl <> model then verdict_both "P_C06_build" show else verdict_pfail "P_C06_build")
+      (* recorded finding D32: packets carrying a Raptor (FEC id 1) EXT_FTI; the correspondence stays exact *)
+      (if known_d32_build oti pkt then (if impl <> model then verdict_diff show else verdict_known "D32")
+       else if impl <> model then verdict_both "P_C06_build" show else verdict_pfail "P_C06_build")
     else if impl <> model then verdict_diff show
     else verdict_ok inr
   | "R" :: desc ->
@@ -189,7 +191,10 @@ let handle (i : string list) (o : string list) =
     let impl = obs_of_tokens o in
     let demanded = wf_pkt p && parse_demand m p in
     if not (p_C06_parse m p impl) then
-      (if impl <> model then verdict_both "P_C06_parse" (String.map (fun c -> if c = ' ' then '_' else c) (show_obs model))
+      (if known_d32_parse p then
+         (if impl <> model then verdict_diff (String.map (fun c -> if c = ' ' then '_' else c) (show_obs model))
+          else verdict_known "D32")
+       else if impl <> model then verdict_both "P_C06_parse" (String.map (fun c -> if c = ' ' then '_' else c) (show_obs model))
        else verdict_pfail "P_C06_parse")
     else if impl <> model then verdict_diff (String.map (fun c -> if c = ' ' then '_' else c) (show_obs model))
     else verdict_ok demanded
